@@ -156,6 +156,11 @@ func (ir *IntrospectionResolver) resolveType(schema *ast.Schema, typ *ast.Type, 
 		case "description":
 			result[f.Alias] = namedType.Description
 		case "interfaces":
+			// only objects and interfaces implement interfaces
+			if namedType.Kind != ast.Object && namedType.Kind != ast.Interface {
+				result[f.Alias] = nil
+				continue
+			}
 			interfaces := []map[string]interface{}{}
 			for _, i := range namedType.Interfaces {
 				interfaces = append(interfaces, ir.resolveType(schema, &ast.Type{NamedType: i}, f.SelectionSet))
@@ -180,6 +185,11 @@ func (ir *IntrospectionResolver) resolveType(schema *ast.Schema, typ *ast.Type, 
 				result[f.Alias] = nil
 			}
 		case "enumValues":
+			// only enums have enum values
+			if namedType.Kind != ast.Enum {
+				result[f.Alias] = nil
+				continue
+			}
 			includeDeprecated := false
 			if deprecatedArg := f.Arguments.ForName("includeDeprecated"); deprecatedArg != nil {
 				v, err := deprecatedArg.Value.Value(ir.Variables)
